@@ -43,6 +43,8 @@ Definition stmt_kept (c : case) : list str :=
   | true, true, [] => present c
   | false, false, [] => present c
   | false, false, ps => filter (accept (lookup (tab c)) ps) (present c)
+  | false, true, ps => (* --non-unit drops the unit-test layer whatever --layer says about it *)
+                       filter (fun n => negb (str_eqb n unit_name) && accept (lookup (tab c)) ps n) (present c)
   | _, _, _ => r_kept c     (* combinations the statement does not speak about *)
   end.
 
